@@ -178,6 +178,31 @@ def solve_old(assertions, timeout_s, logic=None):
     return "unknown", None
 
 
+def int_combo_hints(lhs, rhs):
+    """If lhs - rhs is linear in integer variables k_i with coefficients c*n_i (n_i integers), name the integer
+    combination  n = sum n_i k_i  with a fresh variable.  A definition of a fresh variable is conservative; it lets
+    the LIA engine branch on the combination (without it z3 answers 'unknown' on congruence-mod-2pi goals)."""
+    try:
+        red = poly.Reducer({})
+        d = poly.p_add(red.nf(lhs), red.nf(rhs), -1)
+    except poly.NotPolynomial:
+        return []
+    lin = []
+    for m, c in d.items():
+        if len(m) == 1 and m[0][1] == 1:
+            zt = red.zvars.get(m[0][0])
+            if zt is not None and (z3.is_int(zt) or zt.decl().kind() == z3.Z3_OP_TO_REAL):
+                lin.append((zt if z3.is_int(zt) else zt.arg(0), c))
+    if len(lin) < 2:
+        return []
+    c0 = lin[0][1]
+    ratios = [c / c0 for _v, c in lin]
+    if any(r.denominator != 1 for r in ratios):
+        return []
+    n = z3.Int("ncombo!%d" % (abs(hash(str(lhs.hash()) + str(rhs.hash()))) % 10**9))
+    return [n == z3.Sum([int(r) * v for (v, _c), r in zip(lin, ratios)])]
+
+
 # ---- public API --------------------------------------------------------------------------------
 def prove(goal, assumptions, timeout_s=10, old_timeout_s=20, eq=None, rules=None, use_cone=True, try_old=True, cert_first=False):
     """decide  assumptions => goal.
@@ -194,6 +219,8 @@ def prove(goal, assumptions, timeout_s=10, old_timeout_s=20, eq=None, rules=None
     ng = z3.Not(goal)
     base = cone([ng], assumptions) if use_cone else list(assumptions)
     info = {}
+    if eq is not None:
+        base = base + int_combo_hints(eq[0], eq[1])
 
     def cert():
         if eq is None or rules is None:
@@ -205,25 +232,39 @@ def prove(goal, assumptions, timeout_s=10, old_timeout_s=20, eq=None, rules=None
             return Result("proved", "certificate", time.time() - t0, info=info)
         return None
 
+    tried_cert = False
     if cert_first:
+        tried_cert = True
         r = cert()
         if r:
             return r
-    st, model = solve_new(base + [ng], timeout_s)
-    if st == "unsat":
-        return Result("proved", "z3-5.1", time.time() - t0, info=info)
-    if st == "sat":
-        return Result("refuted", "z3-5.1", time.time() - t0, model=model, info=info)
+    # escalating schedule: quick attempts on both solver versions, then the certificate, then the full budgets
+    schedule = [("new", min(2.0, timeout_s))]
     if try_old:
-        st, model = solve_old(base + [ng], old_timeout_s)
+        schedule.append(("old", min(5.0, old_timeout_s)))
+    schedule.append(("cert", 0))
+    if timeout_s > 2.0:
+        schedule.append(("new", timeout_s))
+    if try_old and old_timeout_s > 5.0:
+        schedule.append(("old", old_timeout_s))
+    for which, tmo in schedule:
+        if which == "cert":
+            if not tried_cert:
+                tried_cert = True
+                r = cert()
+                if r:
+                    return r
+            continue
+        if which == "new":
+            st, model = solve_new(base + [ng], tmo)
+            route = "z3-5.1"
+        else:
+            st, model = solve_old(base + [ng], tmo)
+            route = "z3-4.8.12"
         if st == "unsat":
-            return Result("proved", "z3-4.8.12", time.time() - t0, info=info)
+            return Result("proved", route, time.time() - t0, info=info)
         if st == "sat":
-            return Result("refuted", "z3-4.8.12", time.time() - t0, model=model, info=info)
-    if not cert_first:
-        r = cert()
-        if r:
-            return r
+            return Result("refuted", route, time.time() - t0, model=model, info=info)
     return Result("unknown", "none", time.time() - t0, info=info)
 
 
